@@ -206,9 +206,13 @@ def _configs(tier, salts):
                     for bnd in (False, 2):
                         lo = np.array(BOUNDS2["lo"][:n]) if bnd else None
                         hi = np.array(BOUNDS2["hi"][:n]) if bnd else None
-                        for sname, x00 in (("interior", np.array(INTERIOR[:n])), ("far", np.array([3.0, 2.5, -2.0][:n])),
-                                           ("boundary_a", _proj_ref(sets0, np.array([3.0, 2.5, -2.0][:n]), lo, hi))):
-                            cfg = {"prob": {"f": "lin", "A": np.eye(n).tolist(), "b": (2.0 + off).tolist(), "salt": salt},
+                        # three 'pull' targets, so that for every pair of sets some target lies in the cone of their outward
+                        # normals and the solution sits at their common vertex (acute corners converge slowly)
+                        targets = [np.full(n, 2.0), np.array([-0.2, 4.5, 1.0][:n]), np.array([-3.0, -1.0, 2.0][:n])]
+                        for sname, x00, tgt in [(nm, xx, t) for (nm, xx) in (("interior", np.array(INTERIOR[:n])), ("far", np.array([3.0, 2.5, -2.0][:n])),
+                                                                          ("boundary_a", _proj_ref(sets0, np.array([3.0, 2.5, -2.0][:n]), lo, hi)))
+                                                for t in (targets if nm == "interior" else targets[:1])]:
+                            cfg = {"prob": {"f": "lin", "A": np.eye(n).tolist(), "b": (tgt + off).tolist(), "salt": salt},
                                    "x0": (x00 + off).tolist(), "sets": [translate(specs[i], off) for i in sub],
                                    "rhobeg": 0.2, "rhoend": 1e-3, "maxfun": 30, "memo": True, "record_dykstra": True,
                                    "tag_start": "translated/" + sname, "tag_restart": "none"}
